@@ -24,37 +24,141 @@ def adjPc : IPc → Bool
   | .pro | .chkAdj | .epiAdj => true
   | _ => false
 
-/-- A9: the invariant of the product system -/
+/-- A9: the invariant of the product system, for every execution in which the server was not
+started inside an iteration of the loop that runs without the mutex (`racy = false`) -/
 structure Inv (s : State) : Prop where
-  ownI  : s.owner = some .I ↔ critI s.ipc = true
+  ownI  : s.owner = some .I ↔ (critI s.ipc = true ∧ s.ilock = true)
   ownS  : s.owner = some .S ↔ critS s.spc = true
   stepP : s.sim.phase = .inStep ↔ s.ipc = .stepping
   adjP  : s.sim.phase = .inAdjust ↔ adjPc s.ipc = true
   nc    : s.needCopy = true ↔ ncHigh s.spc = true
   snapS : s.spc = .serialising → ∃ m, s.snap = some m ∧ m.steps = s.sim.steps ∧ m.phase ≠ .inStep
+  lockC : s.ilock = true → critI s.ipc = true
+  upC   : critI s.ipc = true → s.ilock = false → s.srvUp = false
+  downS : s.srvUp = false → s.spc = .accepting
+  noUB  : s.ub = false
+  lockUp : s.ilock = true → s.srvUp = true
+  waitUp : (s.ipc = .waitNC ∨ s.ipc = .wantLock) → s.srvUp = true
 
 theorem inv_init : Inv init := by
   constructor <;> simp [init, critI, critS, ncHigh, adjPc, boundary]
 
-theorem step_inv {s s' : State} {e : Ev} (h : Inv s) (hs : step s e = some s') : Inv s' := by
-  obtain ⟨ipc, spc, owner, nc, ⟨steps, adj, phase⟩, snap, served⟩ := s
-  obtain ⟨h1, h2, h3, h4, h5, h6⟩ := h
+/-- `racy` is a history flag: once set it stays set -/
+theorem step_racy_mono {s s' : State} {e : Ev} (hs : step s e = some s') (h : s'.racy = false) :
+    s.racy = false := by
+  obtain ⟨ipc, spc, owner, nc, ⟨steps, adj, phase⟩, snap, served, up, il, rc, ub⟩ := s
   cases e <;> simp only [step, setPhase] at hs <;> (repeat' split at hs) <;>
+    simp only [Option.some.injEq, reduceCtorEq] at hs <;> subst hs <;> simp_all
+
+/-- split of the events into groups (only to keep each case analysis small) -/
+def grp : Ev → Nat
+  | .iEnter | .iChkBegin | .iChkSync | .iChkEnd _ => 0
+  | .iSeeSrv _ | .iSpin | .iSeeNC0 | .iLock => 1
+  | .iStepBegin | .iStepEnd | .iUnlock | .iSkipUnlock => 2
+  | .iEpiSync | .iLeave | .xStart | .sReq => 3
+  | .sSetNC | .sLock | .sSerBegin | .sSerEnd => 4
+  | .sClrNC | .sUnlock | .sSent => 5
+
+set_option hygiene false in
+macro "inv_case" : tactic => `(tactic|
+  (simp only [step, setPhase] at hs <;> (repeat' split at hs) <;>
     simp only [Option.some.injEq, reduceCtorEq] at hs <;> subst hs <;>
     (constructor <;> simp_all [critI, critS, ncHigh, adjPc]) <;>
-    (try (intro hx; subst hx; simp_all))
+    (try (intro hx; subst hx; simp_all))))
 
-theorem run_inv {tr : List Ev} : ∀ {s s' : State}, Inv s → run s tr = some s' → Inv s' := by
+theorem step_inv_g0 {s s' : State} {e : Ev} (hg : grp e = 0) (h : Inv s)
+    (hs : step s e = some s') (hr : s'.racy = false) : Inv s' := by
+  obtain ⟨ipc, spc, owner, nc, ⟨steps, adj, phase⟩, snap, served, up, il, rc, ub⟩ := s
+  obtain ⟨h1, h2, h3, h4, h5, h6, h7, h8, h9, h10, h11, h12⟩ := h
+  cases e <;> simp only [grp] at hg <;> (try omega) <;> inv_case
+
+theorem step_inv_g1 {s s' : State} {e : Ev} (hg : grp e = 1) (h : Inv s)
+    (hs : step s e = some s') (hr : s'.racy = false) : Inv s' := by
+  obtain ⟨ipc, spc, owner, nc, ⟨steps, adj, phase⟩, snap, served, up, il, rc, ub⟩ := s
+  obtain ⟨h1, h2, h3, h4, h5, h6, h7, h8, h9, h10, h11, h12⟩ := h
+  cases e <;> simp only [grp] at hg <;> (try omega) <;> inv_case
+
+theorem step_inv_g2 {s s' : State} {e : Ev} (hg : grp e = 2) (h : Inv s)
+    (hs : step s e = some s') (hr : s'.racy = false) : Inv s' := by
+  obtain ⟨ipc, spc, owner, nc, ⟨steps, adj, phase⟩, snap, served, up, il, rc, ub⟩ := s
+  obtain ⟨h1, h2, h3, h4, h5, h6, h7, h8, h9, h10, h11, h12⟩ := h
+  cases e <;> simp only [grp] at hg <;> (try omega) <;> inv_case
+
+theorem step_inv_g3 {s s' : State} {e : Ev} (hg : grp e = 3) (h : Inv s)
+    (hs : step s e = some s') (hr : s'.racy = false) : Inv s' := by
+  obtain ⟨ipc, spc, owner, nc, ⟨steps, adj, phase⟩, snap, served, up, il, rc, ub⟩ := s
+  obtain ⟨h1, h2, h3, h4, h5, h6, h7, h8, h9, h10, h11, h12⟩ := h
+  cases e <;> simp only [grp] at hg <;> (try omega) <;> inv_case <;> (try (cases ipc <;> simp_all))
+
+theorem step_inv_g4 {s s' : State} {e : Ev} (hg : grp e = 4) (h : Inv s)
+    (hs : step s e = some s') (hr : s'.racy = false) : Inv s' := by
+  obtain ⟨ipc, spc, owner, nc, ⟨steps, adj, phase⟩, snap, served, up, il, rc, ub⟩ := s
+  obtain ⟨h1, h2, h3, h4, h5, h6, h7, h8, h9, h10, h11, h12⟩ := h
+  cases e <;> simp only [grp] at hg <;> (try omega) <;> inv_case
+
+theorem step_inv_g5 {s s' : State} {e : Ev} (hg : grp e = 5) (h : Inv s)
+    (hs : step s e = some s') (hr : s'.racy = false) : Inv s' := by
+  obtain ⟨ipc, spc, owner, nc, ⟨steps, adj, phase⟩, snap, served, up, il, rc, ub⟩ := s
+  obtain ⟨h1, h2, h3, h4, h5, h6, h7, h8, h9, h10, h11, h12⟩ := h
+  cases e <;> simp only [grp] at hg <;> (try omega) <;> inv_case
+
+theorem grp_lt (e : Ev) : grp e < 6 := by cases e <;> simp [grp]
+
+theorem step_inv {s s' : State} {e : Ev} (h : Inv s) (hs : step s e = some s') (hr : s'.racy = false) :
+    Inv s' := by
+  have := grp_lt e
+  match hg : grp e with
+  | 0 => exact step_inv_g0 hg h hs hr
+  | 1 => exact step_inv_g1 hg h hs hr
+  | 2 => exact step_inv_g2 hg h hs hr
+  | 3 => exact step_inv_g3 hg h hs hr
+  | 4 => exact step_inv_g4 hg h hs hr
+  | 5 => exact step_inv_g5 hg h hs hr
+  | n + 6 => omega
+
+theorem run_racy_mono {tr : List Ev} : ∀ {s s' : State}, run s tr = some s' → s'.racy = false →
+    s.racy = false := by
   induction tr with
-  | nil => intro s s' h hr; simp [run] at hr; subst hr; exact h
+  | nil => intro s s' hr h; simp [run] at hr; subst hr; exact h
   | cons e es ih =>
-    intro s s' h hr
+    intro s s' hr h
     simp only [run] at hr
     split at hr
     · simp at hr
-    · next s1 h1 => exact ih (step_inv h h1) hr
+    · next s1 h1 => exact step_racy_mono h1 (ih hr h)
 
-theorem exec_inv {tr : List Ev} {s : State} (h : Exec tr s) : Inv s := run_inv inv_init h
+theorem run_inv {tr : List Ev} : ∀ {s s' : State}, Inv s → run s tr = some s' → s'.racy = false → Inv s' := by
+  induction tr with
+  | nil => intro s s' h hr _; simp [run] at hr; subst hr; exact h
+  | cons e es ih =>
+    intro s s' h hr hq
+    simp only [run] at hr
+    split at hr
+    · simp at hr
+    · next s1 h1 => exact ih (step_inv h h1 (run_racy_mono hr hq)) hr hq
+
+theorem exec_inv {tr : List Ev} {s : State} (h : Exec tr s) (hq : s.racy = false) : Inv s :=
+  run_inv inv_init h hq
+
+/-- once the server is up, `racy` no longer changes -/
+theorem step_racy_up {s s' : State} {e : Ev} (hs : step s e = some s') (hu : s.srvUp = true) :
+    s'.racy = s.racy ∧ s'.srvUp = true := by
+  obtain ⟨ipc, spc, owner, nc, ⟨steps, adj, phase⟩, snap, served, up, il, rc, ub⟩ := s
+  cases e <;> simp only [step, setPhase] at hs <;> (repeat' split at hs) <;>
+    simp only [Option.some.injEq, reduceCtorEq] at hs <;> subst hs <;> simp_all
+
+theorem run_racy_up {tr : List Ev} : ∀ {s s' : State}, run s tr = some s' → s.srvUp = true →
+    s'.racy = s.racy := by
+  induction tr with
+  | nil => intro s s' hr _; simp [run] at hr; subst hr; rfl
+  | cons e es ih =>
+    intro s s' hr hu
+    simp only [run] at hr
+    split at hr
+    · simp at hr
+    · next s1 h1 =>
+      have := step_racy_up h1 hu
+      rw [ih hr this.2, this.1]
 
 theorem run_append {a b : List Ev} : ∀ {s : State},
     run s (a ++ b) = match run s a with | none => none | some s1 => run s1 b := by
@@ -72,7 +176,7 @@ theorem run_append {a b : List Ev} : ∀ {s : State},
 theorem step_proj {s s' : State} {e : Ev} (hs : step s e = some s') :
     (if e.isI && e != .iSpin then soloStep ⟨s.ipc, s.sim⟩ e = some ⟨s'.ipc, s'.sim⟩
      else (s'.ipc = s.ipc ∧ s'.sim = s.sim)) := by
-  obtain ⟨ipc, spc, owner, nc, ⟨steps, adj, phase⟩, snap, served⟩ := s
+  obtain ⟨ipc, spc, owner, nc, ⟨steps, adj, phase⟩, snap, served, up, il, rc, ub⟩ := s
   cases e <;> simp only [step, setPhase] at hs <;> (repeat' split at hs) <;>
     simp only [Option.some.injEq, reduceCtorEq] at hs <;> subst hs <;>
     simp_all [Ev.isI, soloStep, setPhase]
@@ -109,25 +213,27 @@ structure Quiet (s : State) : Prop where
 
 theorem step_quiet {s s' : State} {e : Ev} (h : Inv s) (q : Quiet s) (hs : step s e = some s')
     (ha : e.isAdjust = false) (he : e ≠ .sSerEnd) : Quiet s' := by
-  obtain ⟨ipc, spc, owner, nc, ⟨steps, adj, phase⟩, snap, served⟩ := s
-  obtain ⟨h1, h2, h3, h4, h5, h6⟩ := h
+  obtain ⟨ipc, spc, owner, nc, ⟨steps, adj, phase⟩, snap, served, up, il, rc, ub⟩ := s
+  obtain ⟨h1, h2, h3, h4, h5, h6, h7, h8, h9, h10, h11, h12⟩ := h
   obtain ⟨q1, q2, q3⟩ := q
   cases e <;> simp only [step, setPhase] at hs <;> (repeat' split at hs) <;>
     simp only [Option.some.injEq, reduceCtorEq] at hs <;> subst hs <;>
     (constructor <;> simp_all [critI, critS, ncHigh, adjPc, Ev.isAdjust])
 
 theorem run_quiet {post : List Ev} : ∀ {s s' : State}, Inv s → Quiet s → run s post = some s' →
+    s'.racy = false →
     (∀ e ∈ post, e.isAdjust = false) → (∀ e ∈ post, e ≠ .sSerEnd) → Quiet s' := by
   induction post with
-  | nil => intro s s' _ q hr _ _; simp [run] at hr; subst hr; exact q
+  | nil => intro s s' _ q hr _ _ _; simp [run] at hr; subst hr; exact q
   | cons e es ih =>
-    intro s s' h q hr ha he
+    intro s s' h q hr hq ha he
     simp only [run] at hr
     split at hr
     · simp at hr
     · next s1 h1 =>
       have q1 := step_quiet h q h1 (ha e (by simp)) (he e (by simp))
-      exact ih (step_inv h h1) q1 hr (fun x hx => ha x (by simp [hx])) (fun x hx => he x (by simp [hx]))
+      exact ih (step_inv h h1 (run_racy_mono hr hq)) q1 hr hq
+        (fun x hx => ha x (by simp [hx])) (fun x hx => he x (by simp [hx]))
 
 /-! ### independent machines commute -/
 
